@@ -75,7 +75,20 @@ def cls_nonstring(d):
     return any(not isinstance(k, str) for k in keys) and str(d.get('exception', '')).startswith('TypeError')
 
 
-CLASSES = {'coincident_codes': cls_coincident, 'contained_extra_key': cls_contained, 'series_nonstring_keys_array': cls_nonstring}
+def cls_int_level_name(d):
+    """An index level named by an integer; observed as NaN instead of the original's values (pandas joins a MultiIndex that has a
+    level NAMED 0 on level NUMBER 0) or IndexError 'Too many levels' (get_level_values(1) on a one-level Index named 1)."""
+    if 'prm' not in d or not isinstance(d.get('prm'), dict):
+        return False
+    O, P = _ops(d)
+    if not bc.int_level_name(O, P):
+        return False
+    exc = d.get('exception')
+    return exc is None or exc.startswith("IndexError('Too many levels")
+
+
+CLASSES = {'coincident_codes': cls_coincident, 'contained_extra_key': cls_contained, 'series_nonstring_keys_array': cls_nonstring,
+           'integer_level_name': cls_int_level_name}
 
 
 # ----------------------------------------------------------------------------------------- one frame-to-frame case
@@ -149,10 +162,10 @@ def scalar_array_relations(res, rng, n):
     rejected = 0
     for it in range(n):
         okind = rng.choice(['S', 'F'])
-        lv = rng.choice([[None], ['a'], ['a', 'b'], [None, 'a']])
+        lv = rng.choice([[None], ['a'], ['a', 'b'], [None, 'a'], [None, None], [''], [0], ['', None]])
         keys = bc.rand_keys(rng, lv, rng.randint(1, 5))
         if okind == 'S' and rng.random() < 0.6:
-            lv = rng.choice([[None], ['a']])
+            lv = rng.choice([[None], ['a'], ['']])
             keys = [(c,) for c in rng.sample(['k_1', 'ND', 'SD', 'TN'], rng.randint(1, 4))]
         O = bc.Operand(okind, lv, keys, cols=['u', 'w'][:rng.randint(1, 2)])
         obj = O.build()
@@ -329,10 +342,18 @@ def frame_cases(res, pairs, tag):
             stats[k2] = stats.get(k2, 0) + 1
         f = c.failure()
         in_known_class = bc.coincident_codes(O, P) or bc.extra_key_of_contained(O, P)
+        int_named = bc.int_level_name(O, P)
+        if int_named:
+            k3 = 'integer level name: ' + ('property holds' if f is None else 'property FAILS (known finding integer-level-name or reported)')
+            stats[k3] = stats.get(k3, 0) + 1
+        if O.kind == 'S' and len(O.levels) > 1 and all(n is None for n in O.levels):
+            stats['Series object with several levels, all unnamed'] = stats.get('Series object with several levels, all unnamed', 0) + 1
+        if O.kind == 'S' and len(O.levels) == 1 and O.levels[0] is not None and not O.levels[0]:
+            stats['Series object with one level whose name is falsy'] = stats.get('Series object with one level whose name is falsy', 0) + 1
         if f is not None:
             what, extra = f
             if reported.get(what, 0) < 3:
-                so, sp = shrink(O, P, what) if not in_known_class else (O, P)
+                so, sp = shrink(O, P, what) if not (in_known_class or int_named) else (O, P)
                 if report(res, so, sp, what, extra):
                     reported[what] = reported.get(what, 0) + 1
         elif not c.inq and c.ob.raised is None and not c.intact:
@@ -341,6 +362,12 @@ def frame_cases(res, pairs, tag):
         t = bc.case_term(O, P, c.ob)
         if t is None:
             stats['not expressible in the model (NaN key component / foreign row)'] = stats.get('not expressible in the model (NaN key component / foreign row)', 0) + 1
+            continue
+        if int_named and f is not None:
+            # the model knows level names only as names (pandas' name/number confusion is not modelled): where the oracle above
+            # found the property violated on the implementation (reported / classified there) there is nothing to compare
+            stats['integer level name: not compared with the model (property fails on the implementation)'] = \
+                stats.get('integer level name: not compared with the model (property fails on the implementation)', 0) + 1
             continue
         if in_known_class and c.inq:
             # the model reproduces the registered defects; where the implementation no longer shows one (it satisfies
